@@ -272,6 +272,8 @@ func checkC10(p *Program, r *Report) {
 	checkTailConsistent(p, r)
 	checkBitSlice(p, r, "C10.bitslice")
 	checkArrayBound(p, r, "C10.array-bound")
+	// "a reported hit always carries a value that was supplied at build time": the codec's round trip
+	checkCodecsAs(p, r, "C10")
 	{
 		var fs []*ssa.Function
 		var roots []*ssa.Function
